@@ -93,7 +93,7 @@ def main():
         nacc += accepted
         chk.sample({'scn': scn, 'expected': 'accept' if case['mustAccept'] else ('reject' if case['mustReject'] else 'open'),
                     'observed': obs['verdict'], 'exc': obs.get('exc')}, limit=5)
-    if nacc == 0:
+    if nacc == 0 and not chk.violations:
         raise fw.Machinery('no scenario was accepted: templates broken')
     chk.cov['exhaustive'] = thorough
     chk.cov['rule'] = ('scenarios of SPAddress.tla (53 760 = InResponseTo x confirmation InResponseTo x Destination x audience '
